@@ -213,7 +213,8 @@ class PipelineSim(WorldBase):
                         line_elems += 1
                 spec = self._gen_trace(g, name, order, tr, shape, fmt, with_write=(kind == "buffet" and g.random() < 0.5)
                                        or (kind == "cache" and g.random() < (0.5 if ntens == 2 else 0.15)),
-                                       epl=line_elems if kind == "cache" else 1, upper=upper)
+                                       epl=line_elems if kind == "cache" else 1, upper=upper,
+                                       staging=(kind == "buffet"))
                 spec["pbits"] = pb
                 evs.append(["trace", spec])
                 tens.append(spec)
@@ -264,7 +265,7 @@ class PipelineSim(WorldBase):
         return evs
 
     def _gen_trace(self, g, name, order, tranks, shape, fmt, with_write=False, iter_like=False, density=None, epl=12,
-                   upper=None):
+                   upper=None, staging=True):
         """rows of a well-formed trace of accesses to tensor `name` at the last loop rank"""
         nr = len(order)
         last = order[-1]
@@ -282,7 +283,9 @@ class PipelineSim(WorldBase):
             return fibers[key]
 
         dens = density if density is not None else g.choice([0.4, 0.7, 1.0])
-        stage_p = g.choice([0.1, 0.25, 0.5])
+        # staging rows only for the buffet: the cache model pins staging lines and expects the read-back sequence
+        # of a real inserting populate; synthetic staging rows make it assert on the unchanged tree
+        stage_p = g.choice([0.1, 0.25, 0.5]) if staging else 0.0
         outer = order[:-1]
 
         def rec(d, stamp, coords):
